@@ -565,7 +565,17 @@ def eval_tree_compat(item):
     rooted = bool(spec["rooted"])
     updated = item["updated"]
     fails = []
+
+    def edit(t):
+        # "stale": the tree is encoded, then two leaves in different places exchange their taxa, then the question is asked
+        # with default arguments -- the answer must be about the tree as it is now
+        lv = [nd for nd in t.postorder_node_iter() if not nd._child_nodes]
+        if len(lv) >= 2:
+            lv[0].taxon, lv[-1].taxon = lv[-1].taxon, lv[0].taxon
+
     probe = build(spec)
+    if updated == "stale":
+        edit(probe)
     fill = SP.node_mask(probe._seed_node, BIT_OF)
     tree_splits = SP.clade_masks(probe, BIT_OF) if rooted else SP.split_masks(probe, BIT_OF, False)
     n_eval = 0
@@ -574,9 +584,14 @@ def eval_tree_compat(item):
         tree = build(spec)
         if updated:
             tree.encode_bipartitions()
+        if updated == "stale":
+            edit(tree)
         b = Bipartition(leafset_bitmask=m, tree_leafset_bitmask=fill, is_rooted=rooted)
         try:
-            got = tree.is_compatible_with_bipartition(b, is_bipartitions_updated=updated)
+            if updated == "stale":
+                got = tree.is_compatible_with_bipartition(b)
+            else:
+                got = tree.is_compatible_with_bipartition(b, is_bipartitions_updated=updated)
         except Exception as e:
             fails.append(("tree_compat.raises", {"m": m}, _exc(e)))
             continue
@@ -603,7 +618,56 @@ def _w_tcompat(item):
 
 def _w_tcompat0(item):
     fails, n = eval_tree_compat(item)
-    return (spec_key(item["spec"]) + " updated=%d" % item["updated"], len(item["spec"]["leaves"]), fails, n)
+    return (spec_key(item["spec"]) + " updated=%s" % (item["updated"] if isinstance(item["updated"], str) else int(item["updated"])), len(item["spec"]["leaves"]), fails, n)
+
+
+# ============================================================================ namespaces with history
+def eval_readded(item):
+    """a namespace whose per-taxon bit masks are already cached loses taxa and gets the SAME Taxon objects back (they now carry
+    new, higher bits: one per add, never reused); a tree over it is encoded and every leaf-set mask is compared with the
+    bits of this model of the accession order"""
+    from dendropy.datamodel.taxonmodel import TaxonNamespace, Taxon
+    n, readd, rooted, shape = item["n"], item["readd"], item["rooted"], tup(item["shape"])
+    ns = TaxonNamespace()
+    taxa = [Taxon(label=l) for l in LABELS[:n]]
+    bit = {}
+    k = 0
+    for t in taxa:
+        ns.add_taxon(t)
+        bit[t.label] = k
+        k += 1
+    # cache the masks the way users do: encode a first tree over all taxa
+    spec0 = {"shape": lst(shapes_exact(n)[0]), "leaves": LABELS[:n], "rooted": rooted, "lens": None, "ns": None}
+    build(spec0, ns=ns).encode_bipartitions()
+    for i in readd:
+        ns.remove_taxon(taxa[i])
+    for i in readd:
+        ns.add_taxon(taxa[i])
+        bit[taxa[i].label] = k
+        k += 1
+    tree = build({"shape": lst(shape), "leaves": LABELS[:n], "rooted": rooted, "lens": None, "ns": None}, ns=ns)
+    fails = []
+    try:
+        tree.encode_bipartitions()
+    except Exception as e:
+        return [("encode@readded.raises", _exc(e))]
+    fill = SP.node_mask(tree._seed_node, bit)
+    for nd in S.pre(tree._seed_node):
+        b = nd._edge._bipartition
+        want = SP.node_mask(nd, bit)
+        if b is None or b._leafset_bitmask != want:
+            fails.append(("encode@readded.leafset", "edge above %s: leafset mask %s, the taxa below carry bits %s (re-added: %s)"
+                          % (S.newick(nd, False), bin(b._leafset_bitmask or 0) if b is not None else None, bin(want), [LABELS[i] for i in readd])))
+            break
+        ws = SP.expected_split(want, fill, rooted)
+        if b.split_bitmask != ws:
+            fails.append(("encode@readded.split", "edge above %s: split mask %s, required %s" % (S.newick(nd, False), bin(b.split_bitmask), bin(ws))))
+            break
+    return fails
+
+
+def _w_readded(item):
+    return ("n=%d readd=%s %s %s" % (item["n"], "".join(LABELS[i] for i in item["readd"]), "R" if item["rooted"] else "U", item["shape"]), item["n"], eval_readded(item))
 
 
 # ============================================================================ driver
@@ -749,9 +813,24 @@ def t2(ctx):
             wk = key + " " + " ".join("%s=%s" % (k, bin(v)) for k, v in sorted(w.items()))
             rep.fail(mon, {"key": wk, "kind": "pred", "item": item, "masks": w}, detail=detail)
 
+    sc = "encode@re-added-taxa"
+    ctx.scope(sc, rule="shapes with 3..4 leaves x {rooted, unrooted} x every non-empty set of <= 2 taxa removed from the namespace and added back (same Taxon objects) "
+                       "after their bit masks were cached by a first encoding; non-trivial = all", exhaustive=True)
+    items = []
+    for n in (3, 4):
+        for shape in shapes_exact(n):
+            for r in (1, 2):
+                for readd in itertools.combinations(range(n), r):
+                    for rooted in (True, False):
+                        items.append({"n": n, "readd": list(readd), "rooted": rooted, "shape": lst(shape)})
+    for item, (key, n, fails) in zip(items, pmap(_w_readded, items, chunksize=8)):
+        ctx.case(sc, key, nontrivial=True, sample=key)
+        for mon, detail in fails:
+            rep.fail(mon, {"key": key, "kind": "readded", "item": item}, detail=detail)
+
     sc = "tree_compat@trees x subsets"
     ctx.scope(sc, rule="shapes with <= %d leaves (+ the first 4 unifurcation variants for <= 4) x 4 namespace variants (1 for 6 leaves) x {rooted, unrooted} x "
-                       "is_bipartitions_updated in {False, True after encoding} x every subset of the leaf set as a bipartition; "
+                       "is_bipartitions_updated in {False, True after encoding, default after encoding and an exchange of two leaf taxa} x every subset of the leaf set as a bipartition; "
                        "non-trivial = >= 4 leaves" % (5 if quick else 6), exhaustive=True)
     items = []
     for n in range(1, (5 if quick else 6) + 1):
@@ -764,7 +843,9 @@ def t2(ctx):
                     if n == 6 and vi != 3:
                         continue
                     for rooted in (True, False):
-                        for upd in (False, True):
+                        for upd in (False, True, "stale"):
+                            if upd == "stale" and (vi != 0 or n < 3):
+                                continue
                             items.append({"spec": {"shape": lst(v), "leaves": list(usable), "rooted": rooted, "lens": None, "ns": nsd},
                                           "updated": upd})
     for item, (key, n, fails, n_eval) in zip(items, pmap(_w_tcompat, items, chunksize=8)):
